@@ -180,12 +180,13 @@ def _run(F, R, ctx):
 
 def digit_tables(F, R, vm, sb):
     """C01.s — numbered specialisations agree with the number they stand for, on both sides."""
-    R.rule("C01.s", "numbered specialisations: in compiler::program a switch on an integer value k that constructs an opcode "
+    R.rule("C01.s", "numbered specialisations: in any function of compiler::program a switch on an integer value k that constructs an opcode "
                     "whose name ends in a digit constructs the one ending in k (READLOCALk, MOVEREADLOCALk, LOADINTk), "
                     "BoolV(true/false) map to TRUE/FALSE; in the interpreter the arm of an opcode ending in k calls the "
                     "handler ending in k / pushes the integer k")
     n = 0
-    for fn in F.find(r"^steel::compiler::program::(specialize_read_local|specialize_constants)$"):
+    # every function of the module (the tables may sit in helpers such as a `fn specialised_op(op, slot) -> Option<OpCode>`)
+    for fn in F.find(r"^steel::compiler::program::"):
         dom = fn.dominators()
         for i, b in enumerate(fn.blocks):
             if b["k"] != "switch" or b["c"] or b["on"] not in ("u32", "usize", "isize", "u8", "bool"):
